@@ -31,6 +31,9 @@ def main():
     try:
         build_harness()
         fn(ctx)
+    except Violation as v:
+        # the process running the library was killed by a signal: recorded as a violation of the property being checked
+        ctx.violation(v.what, save_replay(prop, "violation-crash.txt", v.replay), {"source": "crash"})
     except ToolError as e:
         print("TOOL-ERROR property=%s: %s" % (prop, e))
         return 2
